@@ -146,6 +146,14 @@ def check(env, rep, tier):
                     seen.append(call.args[0])
             I.call_hooks.append(hook)
             I.max_depth = 0
+            made = []
+
+            def m_resp_new(I_, s_, call):
+                # whatever CoapResponse::new decides (C07.1-4) is what the request gets: its result is a marker here
+                v = OpaqueV(call.dest_ty, (("prepared_for", len(made)),))
+                made.append(v)
+                return [(s_, v)]
+            I.extra_models["response::CoapResponse::new"] = m_resp_new
             I, res = run(prog, fp, args=args, st=st, I=I, gargs=gargs)
             R = {n: fidx(prog, "request::CoapRequest", n) for n in ("message", "response", "source")}
             ok = bool(res) and len(seen) == 1
@@ -153,6 +161,9 @@ def check(env, rep, tier):
                 if not isinstance(rv, StructV):
                     ok = False
                     continue
+                # ... on every path: no second opinion on when a reply is prepared
+                if not (made and rv.fields[R["response"]] in made):
+                    ok = False
                 src = rv.fields[R["source"]]
                 if not (isinstance(src, EnumV) and list(src.variants) == [1] and src.variants[1].fields[0] == args[1]):
                     ok = False
